@@ -121,6 +121,14 @@ func (c *conn) open(buf []byte) error {
 		return unix.Send(c.fd, buf, 0)
 	}
 
+	// If there is pending data in outbound buffer (written inside OnOpen),
+	// the current data ought to be appended to the outbound buffer for
+	// maintaining the sequence of network packets.
+	if !c.outboundBuffer.IsEmpty() {
+		_, _ = c.outboundBuffer.Write(buf)
+		return nil
+	}
+
 	for {
 		n, err := unix.Write(c.fd, buf)
 		if err != nil {
